@@ -136,6 +136,9 @@ impl Prop for C12 {
     fn assumptions(&self) -> Vec<String> {
         vec!["empty communities are allowed in a partition (the statement only requires disjointness, containment and cover)".into(), "weighted = true is only used when every edge is weighted".into()]
     }
+    fn enumerate(&self, _tier: Tier) -> Vec<PartCase> {
+        crate::huge::huge_cases().into_iter().map(|g| PartCase { g, nblocks: 0, assign: vec![], empty_blocks: 0, muts: vec![], weighted: true, res: 255 }).collect()
+    }
     fn strategy(&self, _tier: Tier) -> BoxedStrategy<PartCase> {
         fn me(n: usize) -> usize {
             n * 2 + 2
@@ -163,6 +166,16 @@ impl Prop for C12 {
         tier.pick(500_000, 5_000_000)
     }
     fn check(&self, case: &PartCase) -> Outcome {
+        if case.g.big_n > 60_000 {
+            // the fixed huge-graph cases (more than 2^16 nodes): blocks of 1000 positions, linear oracle
+            let mut out = Outcome::new();
+            let ng = case.g.norm();
+            let g = ng.build();
+            crate::huge::modularity(&g, &ng, &mut out);
+            out.class("huge_graph_66003_nodes");
+            out.nontrivial = true;
+            return out;
+        }
         let mut out = Outcome::new();
         let ng = case.g.norm();
         let graph = ng.build();
